@@ -7,7 +7,10 @@ use crate::{
     datagram::*,
     defined::Freq,
     firmware::{
-        fpga::{LoopBehavior, SamplingConfig, Segment, TransitionMode},
+        fpga::{
+            FOCI_STM_BUF_SIZE_MAX, FOCI_STM_FOCI_NUM_MAX, LoopBehavior, STM_BUF_SIZE_MIN,
+            SamplingConfig, Segment, TransitionMode,
+        },
         operation::FociSTMOp,
     },
 };
@@ -139,8 +142,18 @@ impl<const N: usize, G: FociSTMGenerator<N>, C: Into<STMConfig> + Debug> Datagra
         loop_behavior: LoopBehavior,
     ) -> Result<Self::G, Self::Error> {
         let size = self.foci.len();
+        // Validate here, before any frame is built: an operation of an empty sequence is already
+        // "done" and would never be packed (and validated) at all.
+        if N == 0 || N > FOCI_STM_FOCI_NUM_MAX {
+            return Err(AUTDDriverError::FociSTMNumFociOutOfRange(N));
+        }
+        let total_foci = size * N;
+        if !(STM_BUF_SIZE_MIN..=FOCI_STM_BUF_SIZE_MAX).contains(&total_foci) {
+            return Err(AUTDDriverError::FociSTMTotalSizeOutOfRange(total_foci));
+        }
         let stm_config: STMConfig = self.config.into();
         let sampling_config = stm_config.into_sampling_config(size)?;
+        sampling_config.division()?;
         Ok(FociSTMOperationGenerator {
             generator: self.foci.init()?,
             size,
